@@ -12,8 +12,8 @@ import random
 import vlib
 
 LEVEL = "model_checking"
-SQF = ["setg1", "setg2", "readg", "readcfg", "ppfail", "parsefail", "rterr", "rterr_spawned", "endless", "sleeper", "yielder", "napper", "napper", "empty"]
-CFG = ["cfgok", "cfgparsefail", "cfgppfail"]
+SQF = ["setg1", "setg2", "readg", "readcfg", "ppfail", "parsefail", "rterr", "rterr_spawned", "endless", "sleeper", "yielder", "napper", "napper", "empty", "evalerr"]
+CFG = ["cfgok", "cfgparsefail", "cfgppfail", "cfgevalerr"]
 
 
 def mc_cfg(name, depth, emit, dead=True, insts="{1, 2}"):
@@ -59,7 +59,7 @@ def random_histories(rng, n, length):
             elif r < 0.3:
                 h.append({"op": "config", "i": i, "kind": rng.choice(CFG)})
             elif r < 0.4:
-                h.append({"op": "call", "i": i, "type": rng.choice(["p", "1", "?"]), "kind": rng.choice(["setg1", "ppfail", "parsefail", "empty"])})
+                h.append({"op": "call", "i": i, "type": rng.choice(["p", "1", "?"]), "kind": rng.choice(["setg1", "ppfail", "parsefail", "empty", "evalerr"])})
             else:
                 k = rng.choice(SQF)
                 if k in ("endless", "sleeper", "yielder") and not alive[i]:
